@@ -5,6 +5,7 @@ import LdpcV.Driver.C04
 import LdpcV.Driver.C08
 import LdpcV.Driver.C02
 import LdpcV.Driver.C11
+import LdpcV.Driver.C06
 open LdpcV
 
 def dispatch (line : String) : String :=
@@ -22,6 +23,7 @@ def dispatch (line : String) : String :=
   | "c02" :: rest => Driver.C02.handleC02 rest out
   | "c09" :: rest => Driver.C02.handleC09 rest out
   | "c11" :: rest => Driver.C11.handle rest out
+  | "c06" :: rest => Driver.C06.handle rest out
   | _ => "BADLINE unknown-tag"
 
 partial def loop (h : IO.FS.Stream) (o : IO.FS.Stream) : IO Unit := do
